@@ -349,15 +349,15 @@ func (s TeeingStore) Merge(other ReadOnlyFactStore) {
 
 // ListPredicates returns a list of predicates.
 func (s TeeingStore) ListPredicates() []ast.PredicateSym {
-	m := make(map[string]ast.PredicateSym)
+	m := make(map[ast.PredicateSym]bool)
 	for _, pred := range s.base.ListPredicates() {
-		m[pred.Symbol] = pred
+		m[pred] = true
 	}
 	for _, pred := range s.Out.ListPredicates() {
-		m[pred.Symbol] = pred
+		m[pred] = true
 	}
 	res := make([]ast.PredicateSym, 0, len(m))
-	for _, pred := range m {
+	for pred := range m {
 		res = append(res, pred)
 	}
 	return res
